@@ -228,6 +228,7 @@ func c01Walk(c *Ctx, s *scanShape) {
 	gs := c.guardsOf(cb, reads[0].(ssa.Instruction))
 	var notDir, ext, infoOK bool
 	var extra []string
+	infoName := "info"
 	if len(cb.Params) == 3 {
 		// the callback's parameters by position, whatever they are called
 		for i, g := range gs {
@@ -239,7 +240,10 @@ func c01Walk(c *Ctx, s *scanShape) {
 	}
 	for _, g := range gs {
 		switch {
-		case strings.HasPrefix(g, "!IsDir("):
+		case g == "!IsDir(param:"+infoName+")":
+			// decided on the entry information Walk itself obtained (Lstat): a verdict
+			// taken from anything else (a Stat through a symbolic link) disagrees with
+			// what Walk does with the callback's answer
 			notDir = true
 		case strings.HasPrefix(g, "path/filepath.Ext(param:path) in {"):
 			ext = g == `path/filepath.Ext(param:path) in {".json",".yaml"}`
@@ -263,6 +267,9 @@ func c01Walk(c *Ctx, s *scanShape) {
 		for _, g := range g2 {
 			if strings.HasPrefix(g, "IsDir(") {
 				isDir = true
+				if len(cb.Params) == 3 && g != "IsDir(param:"+cb.Params[1].Name()+")" {
+					r.Violation("C01.2", "dir:walk-info", c.pos(ret), "the directory test "+g+" is not taken on the entry information Walk passed to the callback: Walk treats the answer (SkipDir) according to its own Lstat result, so for a symbolic link the rest of the directory is dropped")
+				}
 			}
 			if strings.HasPrefix(g, "param:path == ") {
 				rootOnly = true
